@@ -551,3 +551,17 @@ func init() {
 		return e, stOK
 	})
 }
+
+func init() {
+	// deep.MustCopy (reflection + unsafe): replaced by the interpreter's deep copy, which is its contract.
+	reg("github.com/brunoga/deep.MustCopy", func(it *Interp, g *G, fr *Frame, a []Value, cc *ssa.CallCommon) (Value, status) {
+		return it.deepCopy(a[0], map[any]any{}), stOK
+	})
+	reg("github.com/brunoga/deep.Copy", func(it *Interp, g *G, fr *Frame, a []Value, cc *ssa.CallCommon) (Value, status) {
+		return Tuple{it.deepCopy(a[0], map[any]any{}), Iface{}}, stOK
+	})
+	// clone.Secure is a reflective walk that zeroes `coerce:"secure"` fields (property C17, not claimed):
+	// assumed to touch nothing else; the model request/response types carry no such tag.
+	reg(RepoModule+"/workflow/utils/clone.Secure", noop)
+	reg(RepoModule+"/workflow.Secure", noop)
+}
